@@ -28,6 +28,12 @@ def handle (op : String) (args : List String) : Option String :=
   | "tt.ktwalk", [host, b] => do
     let b ← parseHex b
     pure (showO (fun es => s!"{es.length} " ++ " ".intercalate (es.map (fun e => toString e.length))) (ktRecords b (host == "1")))
+  -- s2kparams value -> iterations run, or refused
+  | "tt.iter", [p] => do
+    let p ← parseNat p
+    match iterationsAccepted (iterationsOfParam p) with
+    | some n => pure s!"ok {n}"
+    | none => pure "refused"
   | _, _ => none
 
 end Driver.Total
